@@ -338,6 +338,10 @@ pub fn replay_case(case: &Value, known: &Known) -> Option<Outcome> {
 pub const RULE: &str = "abstract programs of the relational core decoded from a choice tape (scope- and type-directed), printed to PRQL, compiled for sqlite/generic, executed on in-process SQLite against a generated instance (NULLs, duplicates, empty tables, shared column names) and compared with an independent reference interpreter (values, multiplicities, order where a sort is in effect). non-trivial = compiles, some table non-empty, and the SQL has a CTE/sub-query, join, GROUP BY or window; distinct = hash of (source, target, instance)";
 
 pub fn replay_any(check_name: &str, case: &Value, known: &Known) -> Option<Outcome> {
+    if check_name == "distinct-on-order" {
+        let c: crate::prop::c03::DistinctOnCase = serde_json::from_value(case.clone()).ok()?;
+        return Some(crate::prop::c03::check_distinct_on(&c, known));
+    }
     if check_name == "probe" {
         let p: Probe = serde_json::from_value(case.clone()).ok()?;
         return Some(check_probe(&p, known));
@@ -385,6 +389,7 @@ pub fn run(ctx: &Ctx) -> i32 {
         |t| gen_case(t, cfg2.clone()),
         |c| check(c, &ctx.known),
     );
+    ctx.tape_search("distinct-on-order", ctx.n(3_000, 30_000), 12, crate::prop::c03::gen_distinct_on_case, |c| crate::prop::c03::check_distinct_on(c, &ctx.known));
     ctx.tape_search("setops-over-unknown-columns", ctx.n(3_000, 100_000), 120, gen_setop_case, |c| check(c, &ctx.known));
     let all_h: Vec<&'static str> = HAZARD_FINDINGS.iter().map(|(h, _)| *h).collect();
     hazard_sweeps(ctx, GenCfg::general(), &all_h, 600, 20_000);
